@@ -18,8 +18,13 @@ How the hypotheses appear here
 * "still remembered": `Remembered s t` — no arrival of `t` after its decision missed the record
   (`t ∉ s.missed`; covers eviction from the kept LRU and a drop forgotten by the filter) and the
   dropped filter never claimed `t` without a recorded drop (`t ∉ s.falsePos`).
-* stress relief: the model has no stress-relief transition (`ProcessSpanImmediately` is the router's
-  path, property C16), i.e. the theorems are about stress relief being off throughout.
+* stress relief: `StressConstant s t` — the stress path (`ProcessSpanImmediately`, taken by every span
+  while the node is stressed) never made a decision for `t` while spans of `t` were buffered, which is
+  what "stress relief switches on while the trace is buffered" amounts to (`t ∉ s.mixed`; switching
+  *off* is harmless: the stress decision is recorded and later spans obey it).
+  `stress_switch_can_split` shows the hypothesis is needed.
+* kept capacity: `Op.resize` changes it at any point; a shrink forgets exactly the records beyond the
+  newest `c` of each worker (`resize_keeps_newest`), and a late span of a forgotten trace is a miss.
 * cluster membership: a single node is modelled.
 * DryRun: the property is silent about it; dry run forwards spans of dropped traces by design, so
   "all or none" is stated for histories in which DryRun is never on (`everDry = false`); with
@@ -40,21 +45,24 @@ instance (s : St) (t : Nat) : Decidable (NoneForwarded s t) := by unfold NoneFor
 /-- **decide_once** — a trace whose decision is remembered is decided at most once, whatever the
 history (ticks, ejections and reloads included). -/
 theorem decide_once (P : Params) (dry : Bool) (ops : List Op) (t : Nat)
-    (hrem : Remembered (run P dry ops) t) :
+    (hrem : Remembered (run P dry ops) t) (hsc : StressConstant (run P dry ops) t) :
     ((run P dry ops).decisions.filter (fun d => d.trace == t)).length ≤ 1 :=
-  (inv_run P dry ops).once t hrem.1
+  (inv_run P dry ops).once t hrem.1 hsc
 
 /-- **buffer_record_disjoint** — a buffered trace has no decision (hence no kept or dropped record
 made for it) unless one of its arrivals missed the record. -/
 theorem buffer_record_disjoint (P : Params) (dry : Bool) (ops : List Op) (t : Nat)
-    (hbuf : ∃ sp ∈ (run P dry ops).buf, sp.trace = t) (hm : t ∉ (run P dry ops).missed) :
+    (hbuf : ∃ sp ∈ (run P dry ops).buf, sp.trace = t) (hm : t ∉ (run P dry ops).missed)
+    (hsc : StressConstant (run P dry ops) t) :
     (∀ d ∈ (run P dry ops).decisions, d.trace ≠ t) ∧ t ∉ (run P dry ops).dropped ∧
       ∀ e ∈ (run P dry ops).kept, e.1 ≠ t := by
   have h := inv_run P dry ops
   obtain ⟨sp, hsp, ht⟩ := hbuf
   have hnone : ∀ d ∈ (run P dry ops).decisions, d.trace ≠ t := by
     intro d hd hdt
-    exact hm (ht ▸ h.bufMissed sp hsp ⟨d, hd, hdt.trans ht.symm⟩)
+    rcases ht ▸ h.bufMissed sp hsp ⟨d, hd, hdt.trans ht.symm⟩ with h1 | h1
+    · exact hm h1
+    · exact hsc h1
   refine ⟨hnone, ?_, ?_⟩
   · intro hdrop
     obtain ⟨d, hd, hdt, _⟩ := h.dropDec t hdrop
@@ -85,13 +93,14 @@ spans forwarded (each exactly once) or none; and which of the two is the sampler
 it: all, iff a "keep" decision exists. -/
 theorem single_decision (P : Params) (dry : Bool) (ops : List Op) (t : Nat)
     (hrem : Remembered (run P dry ops) t)
+    (hsc : StressConstant (run P dry ops) t)
     (hnodry : (run P dry ops).everDry = false)
     (hq : Quiescent (run P dry ops) t) :
     ((∃ d ∈ (run P dry ops).decisions, d.trace = t ∧ d.keep = true) ∧ AllForwarded (run P dry ops) t) ∨
     ((∀ d ∈ (run P dry ops).decisions, d.trace = t → d.keep = false) ∧ NoneForwarded (run P dry ops) t) := by
   have h := inv_run P dry ops
   by_cases hk : ∃ d ∈ (run P dry ops).decisions, d.trace = t ∧ d.keep = true
-  · exact Or.inl ⟨hk, kept_all_of_inv h t hrem hk hq.2⟩
+  · exact Or.inl ⟨hk, kept_all_of_inv h t hrem hsc hk hq.2⟩
   · right
     have hdrop : ∀ d ∈ (run P dry ops).decisions, d.trace = t → d.keep = false := by
       intro d hd hdt
@@ -104,15 +113,32 @@ theorem single_decision (P : Params) (dry : Bool) (ops : List Op) (t : Nat)
 with DryRun off and no reload turns it on. -/
 theorem single_decision_ops (P : Params) (ops : List Op) (t : Nat)
     (hno : NoDryReload ops)
-    (hrem : Remembered (run P false ops) t) (hq : Quiescent (run P false ops) t) :
+    (hrem : Remembered (run P false ops) t) (hsc : StressConstant (run P false ops) t)
+    (hq : Quiescent (run P false ops) t) :
     AllForwarded (run P false ops) t ∨ NoneForwarded (run P false ops) t :=
-  (single_decision P false ops t hrem (everDry_run P ops hno) hq).imp (·.2) (·.2)
+  (single_decision P false ops t hrem hsc (everDry_run P ops hno) hq).imp (·.2) (·.2)
+
+/-- stress relief never switched on: `StressConstant` holds for every trace -/
+theorem stressConstant_of_noStress (P : Params) (dry : Bool) (ops : List Op) (hno : NoStressOn ops) (t : Nat) :
+    StressConstant (run P dry ops) t := by
+  have := ((inv_run P dry ops).noStress (everStressed_run P dry ops hno)).2.2.1
+  unfold StressConstant; rw [this]; simp
+
+/-- **resize_keeps_newest** — `Resize` to `c` records per worker keeps every record that has fewer than
+`c` more recent records of the same worker (so a trace among the newest `c` kept decisions of its
+worker is still remembered after a shrinking reload; the older ones are forgotten). -/
+theorem resize_keeps_newest (P : Params) (s : St) (c : Nat) (hc : c ≠ 0) (pre post : List (Nat × Nat)) (e : Nat × Nat)
+    (hk : s.kept = pre ++ e :: post)
+    (hrank : (pre.filter (fun x => P.owner x.1 == P.owner e.1)).length < c) :
+    e ∈ (resizeCfg P s c).kept := by
+  simp only [resizeCfg, hc, if_false, hk]
+  exact resizeKept_keeps P c e post pre [] (by simpa using hrank)
 
 /-! ## The hypotheses are needed -/
 
 /-- `single_decision` without "the decision is still remembered" -/
 def SingleDecisionUnconditional : Prop :=
-  ∀ (P : Params) (ops : List Op) (t : Nat), NoDryReload ops → Quiescent (run P false ops) t →
+  ∀ (P : Params) (ops : List Op) (t : Nat), NoDryReload ops → NoStressOn ops → Quiescent (run P false ops) t →
     AllForwarded (run P false ops) t ∨ NoneForwarded (run P false ops) t
 
 /-- generation 0 keeps every trace, generation 1 drops every trace; one worker, one kept record -/
@@ -128,7 +154,7 @@ def wForgotten : List Op :=
 two kept traces and a late span of the first, trace 0 ends with one span forwarded and one dropped. -/
 theorem forgotten_can_split : ¬ SingleDecisionUnconditional := by
   intro h
-  have := h wP wForgotten 0 (by intro g d hm; simp [wForgotten] at hm; exact hm.2) (by decide)
+  have := h wP wForgotten 0 (by intro g d hm; simp [wForgotten] at hm; exact hm.2) (by decide) (by decide)
   revert this
   decide
 
@@ -137,13 +163,13 @@ late span of a kept trace. -/
 theorem false_positive_can_split : ¬ SingleDecisionUnconditional := by
   intro h
   have := h wP [.span 0 true 1 false, .decide 0, .drain, .span 0 false 1 true] 0
-    (by intro g d hm; simp at hm) (by decide)
+    (by intro g d hm; simp at hm) (by decide) (by decide)
   revert this
   decide
 
 /-- `single_decision` without "DryRun was never on" -/
 def SingleDecisionAnyDryRun : Prop :=
-  ∀ (P : Params) (dry : Bool) (ops : List Op) (t : Nat), Remembered (run P dry ops) t →
+  ∀ (P : Params) (dry : Bool) (ops : List Op) (t : Nat), Remembered (run P dry ops) t → NoStressOn ops →
     Quiescent (run P dry ops) t → AllForwarded (run P dry ops) t ∨ NoneForwarded (run P dry ops) t
 
 /-- **dryrun_toggle_can_split** — a trace dropped with DryRun off whose late span arrives with DryRun
@@ -151,14 +177,35 @@ on has that span forwarded (marked `kept=false`): the DryRun hypothesis of `sing
 theorem dryrun_toggle_can_split : ¬ SingleDecisionAnyDryRun := by
   intro h
   have := h wP false [.reload 1 false, .span 0 true 1 false, .decide 0, .reload 1 true, .span 0 false 1 true] 0
-    (by decide) (by decide)
+    (by decide) (by decide) (by decide)
   revert this
   decide
+
+/-- `single_decision` without "stress relief does not switch on while the trace is buffered" -/
+def SingleDecisionAnyStress : Prop :=
+  ∀ (P : Params) (ops : List Op) (t : Nat), NoDryReload ops → Remembered (run P false ops) t →
+    Quiescent (run P false ops) t → AllForwarded (run P false ops) t ∨ NoneForwarded (run P false ops) t
+
+/-- **stress_switch_can_split** — a span of trace 0 is buffered, stress relief switches on and keeps a
+second span of trace 0 (recording "kept"), switches off, the rules now drop trace 0: the buffered span
+is dropped although the stress-path span was forwarded.  The stress hypothesis is needed. -/
+theorem stress_switch_can_split : ¬ SingleDecisionAnyStress := by
+  intro h
+  have := h wP [.span 0 true 1 false, .stress true, .span 0 false 1 false, .stress false, .reload 1 false, .decide 0] 0
+    (by intro g d hm; simp at hm; exact hm.2) (by decide) (by decide)
+  revert this
+  decide
+
+/-- `wP` with a shrinking reload: traces 0 and 1 kept (capacity 2), resize to 1 forgets trace 0 (the
+older one) and keeps trace 1 -/
+example : (run { wP with cap := 2 } false [.span 0 true 1 false, .decide 0, .span 1 true 1 false, .decide 1, .resize 1]).kept
+    = [(1, 1)] := by decide
 
 /-! ## Non-vacuity -/
 
 /-- a 3-span trace with a late root: child, child, decision (keep), `sendTraces`, late root -/
 example : Remembered (run wP false [.span 0 false 0 false, .span 0 false 2 false, .decide 0, .drain, .span 0 true 1 false]) 0
+    ∧ StressConstant (run wP false [.span 0 false 0 false, .span 0 false 2 false, .decide 0, .drain, .span 0 true 1 false]) 0
     ∧ Quiescent (run wP false [.span 0 false 0 false, .span 0 false 2 false, .decide 0, .drain, .span 0 true 1 false]) 0
     ∧ AllForwarded (run wP false [.span 0 false 0 false, .span 0 false 2 false, .decide 0, .drain, .span 0 true 1 false]) 0 := by
   decide
